@@ -14,7 +14,9 @@ RULE = ("histories add*/list(sorter) on Sorter and MafSorter through the public 
         "small key alphabet (ties, duplicates), every capacity 1..n+1 (plus 0), both spill policies, shuffled insertion "
         "orders, re-iteration and adding after iterating; generic sorter with int/str/tuple/list/float/bool keys "
         "including 0, '', (), [], 0.0, False as keys and as values; items whose key function or codec raises; "
-        "MAF records under the three codec configurations (scheme, explicit names, inferred), both sortable orders, "
+        "MAF records under the three codec configurations (scheme, explicit names, inferred) and under the built-in typed "
+        "scheme gdc-1.0.0 (all-digit barcodes included), text values holding VT/FF/FS/GS/RS/NEL/LS/PS, str items that "
+        "encode to zero bytes, capacities 255-258/300 and 10000 with the record just beyond, both sortable orders, "
         "contigs present/absent; sequences of 2-4 sorter sessions in ONE interpreter, each with its own order and its own "
         "contig list (same names ranked differently, names left out -> the add must raise ValueError, no list); "
         "two or three sorters ALIVE at the same time in one interpreter sharing the temporary directory, their adds and "
@@ -37,10 +39,12 @@ TRUSTED_EXTRA = ["ranking of python keys by the harness (ints as such; str/tuple
 WORK = "/verif/work"
 EXC = {"KeyError": 1, "ValueError": 2, "TypeError": 3, "IndexError": 4, "AssertionError": 5,
        "StopIteration": 6, "NotImplementedError": 7, "OSError": 8}
-COLS = ["Tumor_Sample_Barcode", "Matched_Norm_Sample_Barcode", "Chromosome", "Start_Position", "End_Position", "Id"]
+COLS = ["Tumor_Sample_Barcode", "Matched_Norm_Sample_Barcode", "Chromosome", "Start_Position", "End_Position", "Id", "Note"]
+# characters at which str.splitlines() breaks but which do not end a line of a MAF file
+BREAKS = [0x0b, 0x0c, 0x1c, 0x1d, 0x1e, 0x85, 0x2028, 0x2029]
 CONTIGS = ["chr10", "chr2", "chrX", "chr1"]           # deliberately not in name order
 CHROMS = ["chr1", "chr10", "chr2", "chrX"]
-PLAIN = ("pint", "pstr", "ptup", "plist")
+PLAIN = ("pint", "pstr", "ptup", "plist", "praw")
 
 
 def exc_code(e):
@@ -75,7 +79,7 @@ def py_item(flavour, k, i, bad, off):
         return [k, i, bad, 0]              # a mutable item: the caller may re-use and edit it
     if flavour == "pint":
         return k + off
-    if flavour == "pstr":
+    if flavour in ("pstr", "praw"):
         return "a" * k
     if flavour == "ptup":
         return tuple(range(k))
@@ -88,7 +92,7 @@ def item_rank(flavour, obj, off):
     """[k, id] of an object returned by the sorter"""
     if flavour == "pint":
         return [obj - off, 0]
-    if flavour in ("pstr", "ptup", "plist"):
+    if flavour in ("pstr", "ptup", "plist", "praw"):
         return [len(obj), 0]
     return [obj[0], obj[1]]
 
@@ -102,6 +106,16 @@ class TupleCodec:
         if b == 2:
             raise ValueError("undecodable")
         return (k, i, b, 1)
+
+
+class RawCodec:
+    """the text of a str item as it is: the empty string is stored as zero bytes"""
+
+    def encode(self, obj):
+        return bytearray(obj, "utf-8")
+
+    def decode(self, data, start, length):
+        return bytes(data[start:start + length]).decode("utf-8")
 
 
 class PlainCodec:
@@ -121,7 +135,7 @@ def make_generic(case, cap, always, tmp):
             key = lambda x: x - off  # noqa: E731
         else:
             key = lambda x: x  # noqa: E731
-        codec = PlainCodec()
+        codec = RawCodec() if fl == "praw" else PlainCodec()
     else:
         def key(x):
             if x[2] == 1:
@@ -150,7 +164,8 @@ def _scheme():
         @classmethod
         def __column_dict__(cls):
             return OrderedDict([(COLS[0], StringColumn), (COLS[1], StringColumn), (COLS[2], StringColumn),
-                                (COLS[3], IntegerColumn), (COLS[4], IntegerColumn), (COLS[5], StringColumn)])
+                                (COLS[3], IntegerColumn), (COLS[4], IntegerColumn), (COLS[5], StringColumn),
+                                (COLS[6], StringColumn)])
 
         @classmethod
         def __column_desc__(cls):
@@ -162,12 +177,40 @@ def _scheme():
 def maf_fields(case, k, i):
     """the record of key class k (index into case['keys']) and identity i"""
     tb, nb, ch, st, en = case["keys"][k]
-    return [tb, nb, ch, str(st), str(en), "r%d" % i]
+    note = "n"
+    if case.get("breaks"):
+        note = "n" + chr(BREAKS[i % len(BREAKS)]) + "see" + chr(BREAKS[(i // len(BREAKS) + 3) % len(BREAKS)])
+    return [tb, nb, ch, str(st), str(en), "r%d" % i, note]
+
+
+def _gdc_scheme():
+    from maflib.scheme_factory import find_scheme
+    return find_scheme(version="gdc-1.0.0", annotation=None)
+
+
+def names_of(case):
+    if case.get("codec") == "gdc":
+        import so_common
+        return so_common.GDC_NAMES
+    return COLS
+
+
+def id_column(case):
+    return "Center" if case.get("codec") == "gdc" else "Id"
 
 
 def maf_record(case, k, i, scheme):
     from maflib.record import MafRecord
     from maflib.validation import ValidationStringency
+    if case["codec"] == "gdc":
+        # a line of the built-in typed scheme gdc-1.0.0 (34 columns); the identity travels in Center
+        import so_common
+        tb, nb, ch, st, en = case["keys"][k]
+        d = dict(so_common.GDC_TEMPLATE)
+        d.update({"Tumor_Sample_Barcode": tb, "Matched_Norm_Sample_Barcode": nb, "Chromosome": ch,
+                  "Start_Position": str(st), "End_Position": str(en), "Center": "r%d" % i})
+        line = "\t".join(d.get(n, "") for n in so_common.GDC_NAMES)
+        return MafRecord.from_line(line, scheme=scheme, validation_stringency=ValidationStringency.Strict)
     line = "\t".join(maf_fields(case, k, i))
     if case["codec"] == "scheme":
         return MafRecord.from_line(line, scheme=scheme, validation_stringency=ValidationStringency.Strict)
@@ -207,12 +250,12 @@ def make_maf(case, cap, always, tmp, scheme):
     from maflib.sorter import MafSorter, MafSorterCodec, Sorter
     from maflib.sort_order import SortOrder
     contigs = case_contigs(case)
-    if case["codec"] == "scheme" and always and case.get("api", "MafSorter") == "MafSorter":
+    if case["codec"] in ("scheme", "gdc") and always and case.get("api", "MafSorter") == "MafSorter":
         s = MafSorter(case["order"], scheme=scheme, max_objects_in_ram=cap, contigs=contigs)
         s._tmp_dir = tmp      # MafSorter has no tmp_dir parameter; only the location of the spill files changes
         return s, SortOrder.find(case["order"])(contigs=contigs).sort_key(), None
     so = SortOrder.find(case["order"])(contigs=contigs)
-    if case["codec"] == "scheme":
+    if case["codec"] in ("scheme", "gdc"):
         codec = MafSorterCodec(scheme=scheme)
     elif case["codec"] == "names":
         codec = MafSorterCodec(column_names=list(COLS))
@@ -238,7 +281,7 @@ def _alt(rng, n):
 def _gen_generic(rng, stream):
     n = rng.choice([0, 1, 2, 3, 3, 4, 5, 6, 7, 9])
     nk = rng.choice([1, 2, 3, 4, 6])
-    fl = rng.choice(["t/int", "t/int", "t/str", "t/tup", "t/float", "t/bool", "pint", "pstr", "ptup", "plist"])
+    fl = rng.choice(["t/int", "t/int", "t/str", "t/tup", "t/float", "t/bool", "pint", "pstr", "ptup", "plist", "praw"])
     lo = 0
     if fl == "t/int":
         lo = rng.choice([-2, -1, 0, 0])
@@ -260,6 +303,12 @@ def _gen_generic(rng, stream):
     if stream == "defect" and items and fl not in PLAIN:
         items[rng.randrange(n)][2] = rng.choice([1, 2, 3])
     off = rng.choice([0, 0, 1, -1]) if fl == "pint" else 0
+    if stream == "boundary" and rng.random() < 0.06:
+        # capacities around 256 (CPython caches the int objects up to 256) and the record just beyond
+        fl, lo, off = "t/int", 0, 0
+        cap = rng.choice([255, 256, 257, 258, 300])
+        n = rng.choice([cap - 1, cap, cap + 1, 2 * cap + 1])
+        items = [[rng.randrange(5), i, 0] for i in range(n)]
     tail = []
     if rng.random() < 0.25:
         tail = [[lo + rng.randrange(nk), n + j, 0] for j in range(rng.randint(1, 3))]
@@ -273,7 +322,7 @@ def _gen_maf(rng, stream):
     nk = rng.choice([1, 2, 3, 4, 5])
     keys = []
     for _ in range(nk):
-        keys.append([rng.choice(["TB-A", "TB-B"]), rng.choice(["NB-A", "NB-B"]), rng.choice(CHROMS),
+        keys.append([rng.choice(["TB-A", "TB-B", "123", "45"]), rng.choice(["NB-A", "NB-B", "7", "10"]), rng.choice(CHROMS),
                      rng.choice([1, 2, 9, 10, 100]), rng.choice([1, 2, 9, 10, 100, 1000])])
         if keys[-1][4] < keys[-1][3]:
             keys[-1][4] = keys[-1][3]
@@ -283,7 +332,7 @@ def _gen_maf(rng, stream):
     if stream == "boundary" and n:
         cap = rng.choice([1, n, n + 1, max(1, n // 2)])
     return {"stream": stream, "flavour": "maf", "cap": cap, "always": rng.random() < 0.6,
-            "codec": rng.choice(["scheme", "names", "inferred"]),
+            "codec": rng.choice(["scheme", "names", "inferred", "gdc"]), "breaks": rng.random() < 0.3,
             "order": rng.choice(["Coordinate", "BarcodesAndCoordinate"]), "contigs": rng.random() < 0.5,
             "api": rng.choice(["MafSorter", "Sorter"]), "keys": keys,
             "ops": _ops(items, rng.random() < 0.5, []), "alt": _alt(rng, n)}
@@ -438,6 +487,23 @@ def corpus():
         dict(_maf_session(["chr1", "chr2", "chrX"], "BarcodesAndCoordinate"), cap=10, always=False, reuse=True, codec="scheme"),
         {"stream": "corpus", "flavour": "mut", "cap": 3, "always": True, "off": 0, "reuse": True,
          "ops": _ops([[3, 0, 0], [1, 1, 0], [2, 2, 0], [1, 3, 0], [0, 4, 0]], True, []), "alt": alt},
+        # capacity beyond the small-int cache of CPython, and the default capacity of MafSorter (10000): the record
+        # just beyond the capacity (seeded change: `is` for `==` in the stash-full test)
+        {"stream": "corpus", "flavour": "t/int", "cap": 257, "always": True, "off": 0,
+         "ops": _ops([[i % 3, i, 0] for i in range(259)], False, []), "alt": {"cap": 300, "always": False, "seed": 5}},
+        {"stream": "corpus", "flavour": "t/int", "cap": 10000, "always": True, "off": 0,
+         "ops": _ops([[i % 2, i, 0] for i in range(10001)], False, []), "alt": {"cap": 10000, "always": False, "seed": 5}},
+        # a record whose text is empty (zero bytes in the spill file) in the middle of a chunk
+        {"stream": "corpus", "flavour": "praw", "cap": 3, "always": True, "off": 0,
+         "ops": _ops([[2, 0, 0], [0, 0, 0], [1, 0, 0], [3, 0, 0], [0, 0, 0], [1, 0, 0]], True, []), "alt": alt},
+        # values holding the characters at which str.splitlines() breaks (VT FF FS GS RS NEL LS PS); a typed
+        # built-in scheme with all-digit sample barcodes under BarcodesAndCoordinate
+        dict(_maf_session(None, "Coordinate"), cap=2, breaks=True),
+        dict(_maf_session(None, "Coordinate"), cap=3, breaks=True, codec="scheme", always=False),
+        {"stream": "corpus", "flavour": "maf", "cap": 2, "always": True, "codec": "gdc", "order": "BarcodesAndCoordinate",
+         "contigs": False, "api": "MafSorter",
+         "keys": [["123", "N1", "chr1", 5, 5], ["45", "N1", "chr1", 5, 5], ["TB-A", "7", "chr2", 1, 1], ["9", "10", "chr1", 1, 2]],
+         "ops": _ops([[0, 0, 0], [1, 1, 0], [2, 2, 0], [3, 3, 0], [1, 4, 0]], True, []), "alt": {"cap": 4, "always": False, "seed": 3}},
         # the cursor classes through their own methods (next() aliases, __iter__, beyond exhaustion, closed early)
         {"stream": "corpus", "flavour": "t/int", "cap": 2, "always": True, "off": 0, "iter_style": "classes",
          "ops": _ops([[3, 0, 0], [1, 1, 0], [2, 2, 0], [1, 3, 0], [0, 4, 0]], True, []), "alt": alt},
@@ -546,7 +612,7 @@ class _Hist:
     def __init__(self, case, cap, always, tmp):
         self.case = case
         fl = self.fl = case["flavour"]
-        self.scheme = _scheme() if fl == "maf" else None
+        self.scheme = (_gdc_scheme() if case.get("codec") == "gdc" else _scheme()) if fl == "maf" else None
         self.ranks = maf_rank_table(case) if fl == "maf" else None
         self.sorter, self.kf, self.codec = (make_maf(case, cap, always, tmp, self.scheme) if fl == "maf"
                                 else make_generic(case, cap, always, tmp))
@@ -563,7 +629,7 @@ class _Hist:
         if self.shared is None:
             self.shared = fresh
         else:
-            for name in COLS:                      # edit the caller's record in place
+            for name in names_of(self.case):       # edit the caller's record in place
                 self.shared[name].value = fresh[name].value
         return self.shared
 
@@ -650,7 +716,7 @@ class _Hist:
         for r in got:
             try:
                 if fl == "maf":
-                    i = int(r["Id"].value[1:])
+                    i = int(r[id_column(case)].value[1:])
                     kcls = next((a[0] for a in added if a[1] == i), -1)
                     items.append([kcls, i])
                     texts.append([i, str(r), [repr(v) for v in r.column_values()]])
